@@ -15,6 +15,7 @@ Leg C: oracle on the implementation's observations only (sched_common.oracle_cas
        registered callsite was offered to every collector live at the end."""
 import itertools
 import os
+import sys
 
 import vlib
 from vlib import Report, coq_prove, cargo_build
@@ -260,6 +261,12 @@ def run(ctx):
         "deadlock-freedom is proved of the model and sampled on the code (hang detection under forced schedules): label partial",
         "the steps that hold a reload cell's write lock have no yield point: forced schedules do not preempt inside them (the theorems do)"]
     # ---- leg A
+    # ---- translator: the yield points of the modelled sources (static tie, proved equal to the model's in Sched_Points.v)
+    sys.path.insert(0, os.path.join(vlib.VERIF, "translators"))
+    import sched_points
+    text, unrec = sched_points.main(ctx.repo, None)
+    vlib.gen_if_changed(os.path.join(vlib.COQ, "gen", "Gen_sched_points.v"), text)
+    rep.tie("translator:Gen_sched_points", not unrec, "; ".join(unrec[:4]), unrec[:1] or None)
     rep.proof = coq_prove(ctx, "C04", ["theories/Properties/C04.vo"])
     # ---- build
     ok, paths, log = cargo_build(ctx, "sched", ["h_sched"])
